@@ -232,13 +232,32 @@ class CountingExecutor(_TPE):
         return super().submit(job)
 
 
+class _AsyncioProxy:
+    """stands in for the `asyncio` module inside nostr_relay.web: identical except that
+    sleep() (only used there for client throttling) takes no real time; the requested
+    durations are recorded"""
+
+    def __init__(self, real):
+        self._real = real
+        self.slept = []
+
+    def __getattr__(self, name):
+        return getattr(self._real, name)
+
+    async def sleep(self, delay, result=None):
+        self.slept.append(delay)
+        await self._real.sleep(0)
+        return result
+
+
 BUSY_CORO_NAMES = ("notify", "run_query", "_bounce_to_relay")
 
 
 class Rig:
     def __init__(self, backend="sql", config=None, storage_options=None, scratch_dir=None,
-                 exec_delay=None):
+                 exec_delay=None, real_throttle=False):
         self.backend = backend
+        self.real_throttle = real_throttle
         self.scratch = scratch_dir or env.scratch("vf-rig-")
         self.rec = Recorder()
         self.conns = {}
@@ -284,6 +303,10 @@ class Rig:
         from nostr_relay import rate_limiter
 
         self.null_limiter = rate_limiter.NullRateLimiter()
+        from nostr_relay import web
+
+        if not self.real_throttle and not isinstance(web.asyncio, _AsyncioProxy):
+            web.asyncio = _AsyncioProxy(asyncio)
         self.storage = await self.make_storage(create_schema=create_schema)
         import nostr_relay.storage as st
 
